@@ -89,6 +89,7 @@ package ir
 //@   loop 1: invariant ghost(cleared) == old(ghost(cleared)) + 1
 //@   assert_before_call emitTruncate: len(old(c.context)) >= 2 ==> $m.height == old(c.context[len(c.context)-2].height)
 //@   assert_before_call emitClearReg: len(old(c.context)) >= 1 ==> $m == old(c.context[len(c.context)-1])
+//@   ghost popped += 1
 //@   ensures ghost(cleared) == old(ghost(cleared)) + 1
 
 // A jump (goto, break) truncates to the height of the scope that owns the
@@ -130,3 +131,14 @@ package ir
 //@   requires c != nil
 //@   modifies nothing
 //@   ensures result == (c.context.getHeight() > 0)
+
+// Scope bookkeeping for the C01 obligations of the statement compilers:
+// ghost(pushed) / ghost(popped) count the scopes opened and closed.
+//@ func (*CodeBuilder).PushContext
+//@   prop C01
+//@   arith int
+//@   norte
+//@   nocover
+//@   requires c != nil
+//@   modifies everything()
+//@   ghost pushed += 1
